@@ -5,7 +5,7 @@ C10/C11 calls.  Must be started with NUMBA_DISABLE_JIT=1 (run_impl(..., jit=Fals
 payload: {"cases": [{"fn": name, "args": [...]}, ...]}     (same layout as harness/impl/c10.py)
 result : {"files": {basename: {"statements": n, "executed": n, "missing_lines": [...],
                                "branches": n, "missing_branches": [[from, to], ...]}},
-          "errors": n_calls_that_raised}
+          "errors": n_calls_that_raised, "raised": [{"index": i, "exc": type, "msg": text}, ...]}
 """
 import json
 import os
@@ -26,11 +26,14 @@ def main():
     import distance3d.distance as D      # imported under coverage: module-level lines count as executed
     from harness.impl.c10 import to_arg
     errors = 0
-    for c in payload["cases"]:
+    raised = []
+    for i, c in enumerate(payload["cases"]):
         try:
             getattr(D, c["fn"])(*[to_arg(a) for a in c["args"]])
-        except BaseException:            # noqa
+        except BaseException as e:       # noqa
             errors += 1
+            if len(raised) < 50:
+                raised.append(dict(index=i, exc=type(e).__name__, msg=str(e)[:160]))
     cov.stop()
     files = {}
     for f in sorted(cov.get_data().measured_files()):
@@ -41,7 +44,7 @@ def main():
             statements=nums.n_statements, executed=nums.n_statements - nums.n_missing,
             missing_lines=sorted(an.missing),
             branches=nums.n_branches, missing_branches=sorted([a, b] for a, bs in mb.items() for b in bs))
-    json.dump(dict(files=files, errors=errors), open(sys.argv[2], "w"))
+    json.dump(dict(files=files, errors=errors, raised=raised), open(sys.argv[2], "w"))
 
 
 if __name__ == "__main__":
